@@ -37,6 +37,15 @@ void *memset(void *, int, size_t);
 #define VERIF_MEMCPY(d, s, n) memcpy((d), (s), (size_t)(n))
 #define VERIF_MEMMOVE(d, s, n) memmove((d), (s), (size_t)(n))
 #define VERIF_MEMSET(d, c, n) memset((d), (int)(c), (size_t)(n))
+/* non-literal sizes: byte loops. CBMC's built-in memset/memcpy with a symbolic length is imprecise on typed
+ * (struct) objects -- measured: memset(p, 0, n<<4) left pointer fields of a struct array non-zero. */
+static inline void *verif_memset_v(void *d, int c, size_t n) { for (size_t i = 0; i < n; i++) ((uint8_t *)d)[i] = (uint8_t)c; return d; }
+static inline void *verif_memcpy_v(void *d, const void *s, size_t n) { for (size_t i = 0; i < n; i++) ((uint8_t *)d)[i] = ((const uint8_t *)s)[i]; return d; }
+static inline void *verif_memmove_v(void *d, const void *s, size_t n) {
+  if ((uintptr_t)d <= (uintptr_t)s) for (size_t i = 0; i < n; i++) ((uint8_t *)d)[i] = ((const uint8_t *)s)[i];
+  else for (size_t i = n; i > 0; i--) ((uint8_t *)d)[i - 1] = ((const uint8_t *)s)[i - 1];
+  return d;
+}
 #define BITCAST(FT, TT, e) (((union { FT f; TT t; }){ .f = (e) }).t)
 #define SEXT_ODD(e, w) ((int64_t)(((uint64_t)(e)) << (64 - (w))) >> (64 - (w)))
 double fmod(double, double); double fabs(double); double floor(double); double ceil(double); double trunc(double);
